@@ -141,7 +141,7 @@ def decode(b, follow="header"):
         problems.append(("params/block_count", "records end at section byte %d but the block count (%d) gives %d" % (end_of_records - p0, nblocks, nblocks * BLOCK)))
     else:
         need = (end_of_records - p0 + BLOCK - 1) // BLOCK
-        if need != nblocks:
+        if need > nblocks:
             problems.append(("params/block_count", "records need %d block(s), the block count says %d" % (need, nblocks)))
         pad = b[end_of_records:sect_end]
         if len(pad) != sect_end - end_of_records:
